@@ -313,8 +313,13 @@ type btReplay struct {
 // derived lookups intact, the old buckets empty. imageSpec is the spec of the image the LAST run
 // started from (a deterministic replay: build it, run the migration once, read the block).
 func checkFinal(res *lib.Result, c, imageSpec chainSpec, final *memory.Database) bool {
+	return checkFinalFrom(res, c, imageSpec, final, 0)
+}
+
+// checkFinalFrom: as checkFinal for the blocks from..height (the blocks below were pruned on purpose).
+func checkFinalFrom(res *lib.Result, c, imageSpec chainSpec, final *memory.Database, from uint64) bool {
 	ok := true
-	for b := uint64(0); b <= c.height() && !c.NoHeight; b++ {
+	for b := from; b <= c.height() && !c.NoHeight; b++ {
 		got := readBlockCurrent(final, c, b)
 		exp := c.expectedView(b)
 		if sameView(got, exp) && got.Note == "" {
@@ -352,6 +357,7 @@ func checkFinal(res *lib.Result, c, imageSpec chainSpec, final *memory.Database)
 		return ok
 	}
 	if l := layoutOf(final, c.height()); strings.ContainsAny(l, "ob") {
+		_ = from
 		ok = false
 		res.Violate(lib.Violation{Sig: "blocktx-old-entries-left-after-migration",
 			What:   "old per-transaction entries remain after Migrate returned complete: " + l,
